@@ -27,7 +27,7 @@ if ROUND == "r2":
     REBASED = {"C03-mutant-b": "/tmp/rebased/C03-r2-mutant-b/patch.diff"}
 
 if ROUND == "r3":
-    PKG, RACE_DEMO, REBASED = {}, set(), {"C01-mutant-a": "/tmp/rebased/C01-r3-mutant-a/patch.diff"}
+    PKG, RACE_DEMO, REBASED = {}, set(), {"C01-mutant-a": "/tmp/rebased/C01-r3-mutant-a/patch.diff", "C19-mutant-b": "/tmp/rebased/C19-r3-mutant-b/patch.diff"}
     EXTRA = json.load(open(os.environ["SEED_EXTRA"])) if os.environ.get("SEED_EXTRA") else {}
 
 def sh(cmd, cwd=None, timeout=1800):
